@@ -484,16 +484,16 @@ package flags
 //@   assigns nothing
 
 // sort (trusted): the result is a sorted rearrangement of the same elements.
-//@ assumed func sort.Sort.commandList(data commandList)
+//@ assumed func sort.Sort.commandList(data commandList) (perm []int, inv []int)
 //@   updates data
-//@   ensures forall(i, 0, len(data), exists(j, 0, len(data), data[i] == old(data)[j]))
-//@   ensures forall(j, 0, len(data), exists(i, 0, len(data), data[i] == old(data)[j]))
-//@   ensures forall(i, 0, len(data)-1, data[i].Name <= data[i+1].Name)
-//@ assumed func sort.Strings(a []string)
+//@   ensures forall(i, 0, len(data), 0 <= perm[i] && perm[i] < len(data) && data[i] == old(data)[perm[i]])
+//@   ensures forall(j, 0, len(data), 0 <= inv[j] && inv[j] < len(data) && old(data)[j] == data[inv[j]])
+//@   ensures forall(i, 0, len(data), forall(j, i, len(data), data[i].Name <= data[j].Name))
+//@ assumed func sort.Strings(a []string) (perm []int, inv []int)
 //@   updates a
-//@   ensures forall(i, 0, len(a), exists(j, 0, len(a), a[i] == old(a)[j]))
-//@   ensures forall(j, 0, len(a), exists(i, 0, len(a), a[i] == old(a)[j]))
-//@   ensures forall(i, 0, len(a)-1, a[i] <= a[i+1])
+//@   ensures forall(i, 0, len(a), 0 <= perm[i] && perm[i] < len(a) && a[i] == old(a)[perm[i]])
+//@   ensures forall(j, 0, len(a), 0 <= inv[j] && inv[j] < len(a) && old(a)[j] == a[inv[j]])
+//@   ensures forall(i, 0, len(a), forall(j, i, len(a), a[i] <= a[j]))
 
 //@ func (c *Command) sortedVisibleCommands() (r []*Command)
 //@   props C08 C16 C20 C15 C04
@@ -501,5 +501,5 @@ package flags
 //@   ensures[C16,C20] forall(i, 0, len(r), r[i] != nil && !r[i].Hidden)
 //@   ensures[C16,C20] forall(i, 0, len(r), exists(j, 0, len(c.commands), r[i] == c.commands[j]))
 //@   ensures[C16,C20] forall(j, 0, len(c.commands), !c.commands[j].Hidden ==> exists(i, 0, len(r), r[i] == c.commands[j]))
-//@   ensures[C15,C20] forall(i, 0, len(r)-1, r[i].Name <= r[i+1].Name)
+//@   ensures[C15,C20] forall(i, 0, len(r), forall(j, i, len(r), r[i].Name <= r[j].Name))
 //@   assigns nothing
